@@ -164,6 +164,12 @@ class Expander:
     def resolve(self, call: ast.Call, mi, cls_qual, owner_qual):
         """-> (callee qual, FunctionDef, module, self expression or None) for an *unknown* repo callee, else None."""
         f = call.func
+        if isinstance(f, ast.Lambda):
+            # immediate application of a lambda (produced when a lambda-valued local is substituted): a function with one return
+            fn = ast.FunctionDef(name="<lambda>", args=f.args, body=[ast.Return(value=f.body)], decorator_list=[], returns=None, type_comment=None, type_params=[])
+            ast.copy_location(fn, f)
+            ast.fix_missing_locations(fn)
+            return f"<lambda>@{getattr(f, 'lineno', 0)}:{getattr(f, 'col_offset', 0)}:{id(f)}", fn, mi, None
         try:
             if isinstance(f, ast.Name):
                 q = self.repo.resolve_name(mi, f.id)
@@ -280,10 +286,31 @@ class Expander:
         block(fn.body)
         return changed
 
+    @staticmethod
+    def inline_local_lambdas(fn: ast.FunctionDef) -> bool:
+        """`f = lambda x: E; ... f(a)` -> `(lambda x: E)(a)` when f is assigned exactly once in the function (then expanded like a helper)."""
+        lam, stores = {}, {}
+        for n in ast.walk(fn):
+            if isinstance(n, ast.Name) and isinstance(n.ctx, ast.Store):
+                stores[n.id] = stores.get(n.id, 0) + 1
+            if isinstance(n, ast.Assign) and len(n.targets) == 1 and isinstance(n.targets[0], ast.Name) and isinstance(n.value, ast.Lambda):
+                lam[n.targets[0].id] = n.value
+        changed = False
+        for c in ast.walk(fn):
+            if isinstance(c, ast.Call) and isinstance(c.func, ast.Name) and c.func.id in lam and stores.get(c.func.id) == 1:
+                c.func = copy.deepcopy(lam[c.func.id])
+                changed = True
+        return changed
+
     def expand_function(self, fn: ast.FunctionDef, mi, cls_qual, qual, stack=()):
         changed = self.normalize_star_args(fn)
         fn.body, ch = self._block(fn.body, mi, cls_qual, qual, stack + (qual,), 0)
         changed |= ch
+        for _ in range(2):
+            if not self.inline_local_lambdas(fn):
+                break
+            changed = True
+            fn.body, ch = self._block(fn.body, mi, cls_qual, qual, stack + (qual,), 0)
         if changed:
             ast.fix_missing_locations(fn)
             for parent in ast.walk(fn):
